@@ -71,6 +71,9 @@ class PrintParse(Stream):
             # formerly F2: long / hyphenated / whitespace-only help
             {"doc": 'a = 1\n.help = "' + "x" * 50 + " y-z " + '\\"' * 20 + '"\n', "level": 2, "width": 40},
             {"doc": 'a = 1\n.help = "' + " " * 60 + '"\n', "level": 3, "width": 40},
+            # formerly printed unquoted and read back as the None / Auto objects (repaired in /repo 9a822a9)
+            {"doc": 'a = 1\n.help = "None"\n.caption = "auto"\ns\n.help = "Auto"\n{\n}\n', "level": 2, "width": None},
+            {"doc": 'a = 1\n.help = "none"\n.short_caption = "AUTO"\n', "level": 3, "width": 60},
             # formerly: an unquoted backslash word after a continuation backslash
             {"doc": "x = a \\ \\ b\ny = 1\n", "level": 3, "width": 79},
             # formerly F3
